@@ -50,6 +50,7 @@ def check_mle(res, facts, tier):
     fix = [f for f in facts.fns(unit="ws", crate="ark_poly") if f.name == "fix_variables" and f.self_head == DENSE and f.kind != "Closure"]
     evl = [f for f in facts.fns(unit="ws", crate="ark_poly") if f.name == "evaluate" and f.self_head == DENSE and f.kind != "Closure" and (f.trait_impl or "").endswith("Polynomial")]
     top = 5 if tier == "thorough" else 4
+    decided = []
     if not fix:
         rule.bad("ark_poly|Dense::fix_variables|mle", "anchor missing")
     else:
@@ -84,6 +85,7 @@ def check_mle(res, facts, tier):
                     break
             if verdict is None:
                 rule.ok(key, "all %d values of dim: every entry equals the partial evaluation" % (nv + 1), fix[0].loc)
+                decided.append(True)
             elif verdict[0] == "bad":
                 rule.bad(key, verdict[1], fix[0].loc)
             else:
@@ -101,3 +103,4 @@ def check_mle(res, facts, tier):
                 rule.bad(key, "evaluate returns %s, not the multilinear extension's value sum_b e_b * eq(b, point)" % str(got)[:160], evl[0].loc)
             else:
                 rule.ok(key, "value = sum over the %d corners of e_b * eq(b, point)" % (1 << nv), evl[0].loc)
+    return len(decided) == top + 1      # fix_variables proved for every nv of the range
